@@ -154,7 +154,7 @@ the eligible subscribers the Spec's own bookkeeping expects, once, unmodified. -
 theorem spec_data_clause_passes_on_model (cfg : Cfg) (ok : CfgOK cfg) (hfuel : cfg.fuel = 0) (hperm : OrdPerm cfg)
     (hmt : cfg.mtClosed ≠ cfg.allTypes) (rs : List Round) (hwf : RoundsWF rs) :
     (Spec.runSpec cfg rs (Pyrtma.Drv.Manager.modelRun cfg rs).1 none).errs.filter (·.1 == "C01") = [] :=
-  spec_passes_on_model ok hfuel hperm hmt rs hwf "C01" (by simp [proven]) (fun h => absurd h (by decide))
+  spec_passes_on_model ok hfuel hperm hmt rs hwf "C01" (by simp [provenCore]) (fun h => absurd h (by decide))
 
 /-! ### Non-vacuity: a concrete three-module state, one subscribe-all logger, one addressed message -/
 
